@@ -1132,7 +1132,8 @@ def stream_last_recipient(rng, quick=True):
                 calls.append(("jwe.decrypt_json", d, k, rng.choice(["all", "any1", "lax"]), "lastrec/jwe"))
     pseg = b64u(pt)
     good = jws_member({"alg": "HS256"}, {"kid": "oct32"}, pseg, "HS256", "oct32")
-    for h, alg, kn, kind in rng.sample(jws_mutants(rng, True), 400 if quick else 4000):
+    _jm = jws_mutants(rng, True)
+    for h, alg, kn, kind in rng.sample(_jm, min(len(_jm), 400 if quick else 4000)):
         if not isinstance(h, dict):
             continue
         mem = jws_member({"alg": alg}, {k: v for k, v in h.items() if k != "alg"}, pseg, alg, kn)
